@@ -17,6 +17,10 @@ and only valid unicode, so the OS passes every entry unchanged).  On the strengt
 observed at the recorder seam only (no child process): `multi-rep` (MultiInputObj[str], argstr "-x...", value
 ["j", s, "k"]) and `path` (a `pathlib.Path` field, value Path("/vt-no-such-dir/" + s)).
 
+Thorough tier: every string of length <= 2 is really executed in all five placements; a string of length 3 is really
+executed in one of them (rotation over the strings, so every placement gets a fifth) and observed at the recorder seam
+in the four others (7 315 child processes cost 30 min on the loaded build machine; 1 991 remain).
+
 Oracle (exactly the statement): the element arrives verbatim -- for pos / file / path as an argument of its own
 (`element in argv`), for tmpl / list-* / multi-rep as its own argument or verbatim inside one argument
 (`any(element in entry)`).  Nothing else about the argv is asserted (order, flags, neighbours are C22's subject).
@@ -105,8 +109,9 @@ def work(part, chunk):
 
 
 def spread(violations):
+    """shortest strings first, and every (signature, placement) class shown early"""
     seen, keyed = {}, []
-    for i, v in enumerate(violations):
+    for i, v in enumerate(sorted(violations, key=lambda v: (len(v[1]["s"]), v[1]["s"]))):
         k = (v[0], v[1]["placement"])
         seen[k] = seen.get(k, 0) + 1
         keyed.append((seen[k], i, v))
@@ -118,14 +123,23 @@ def run(ctx):
     maxlen = 3 if ctx.thorough else 2
     strs = list(K.strings(maxlen))
     its = []
-    for pl in K.REAL_PLACEMENTS:
-        for i in range(0, len(strs), CHUNK):
-            its.append((pl, True, strs[i:i + CHUNK]))
+
+    def add(pl, real, ss):
+        step = CHUNK if real else 4 * CHUNK
+        for i in range(0, len(ss), step):
+            its.append((pl, real, ss[i:i + step]))
+    short = [s for s in strs if len(s) <= 2]
+    long_ = [s for s in strs if len(s) > 2]
+    for j, pl in enumerate(K.REAL_PLACEMENTS):
+        # length <= 2: really executed in every placement; length 3 (thorough): really executed in one placement (by
+        # rotation over the strings) and observed at the execute seam in the four others
+        add(pl, True, short + [s for i, s in enumerate(long_) if i % len(K.REAL_PLACEMENTS) == j])
+        add(pl, False, [s for i, s in enumerate(long_) if i % len(K.REAL_PLACEMENTS) != j])
     for pl in K.SEAM_PLACEMENTS:
-        for i in range(0, len(strs), 4 * CHUNK):
-            its.append((pl, False, strs[i:i + 4 * CHUNK]))
+        add(pl, False, strs)
     ctx.rule = ("every string of length 1..%d over the 11-character alphabet x placements %s really executed "
-                "(child process prints its argv) + placements %s at the execute seam; oracle: element verbatim as an "
+                "(child process prints its argv; length-3 strings: really executed in one placement, at the execute seam "
+                "in the others) + placements %s at the execute seam; oracle: element verbatim as an "
                 "argv entry (pos/file/path) or verbatim inside one entry (tmpl/list/multi); non-trivial = string with a "
                 "non-alphanumeric character; distinct by (placement, string)"
                 % (maxlen, K.REAL_PLACEMENTS, K.SEAM_PLACEMENTS))
